@@ -143,6 +143,29 @@ def search(chk: common.Check, rng, n_events: int):
             bad.append({"what": "inside PDG limits but indicator != 1", "masses": [M0, *masses], "sigma1": S1, "sigma2": S2, "limits": [smin, smax], "indicator": ind})
         if (S2 < smin - margin or S2 > smax + margin) and ind != -7.0:
             bad.append({"what": "outside PDG limits but indicator is not the outside value", "masses": [M0, *masses], "sigma1": S1, "sigma2": S2, "limits": [smin, smax], "indicator": ind})
+    # physical events exactly ON the Dalitz boundary (collinear momenta), evaluated exactly with
+    # rationals: Kibble == 0 there and the indicator must still be 1
+    tri = [(3, 4, 5), (8, 6, 10), (5, 12, 13), (8, 15, 17), (7, 24, 25), (20, 21, 29), (12, 35, 37), (9, 40, 41)]
+    for i in range(12):
+        (a, ma, ea), (b, mb, eb) = rng.sample(tri, 2)
+        sa, sb = rng.choice([1, -1]), rng.choice([1, -1])
+        pa, pb = sa * a, sb * b
+        p1 = -(pa + pb)
+        cands = [t for t in tri if t[0] == abs(p1)] or [(abs(p1), 0, abs(p1))]
+        _, m1_, e1 = rng.choice(cands) if abs(p1) else (0, 7, 7)
+        if abs(p1) and not [t for t in tri if t[0] == abs(p1)]:
+            m1_, e1 = 0, abs(p1)  # massless third particle
+        R = sp.Rational
+        M0 = R(e1 + ea + eb)
+        S1 = R((ea + eb) ** 2 - (pa + pb) ** 2)
+        S2 = R((e1 + eb) ** 2 - (p1 + pb) ** 2)
+        val = ps.is_within_phasespace(S1, S2, M0, R(m1_), R(ma), R(mb), outside_value=R(-7)).doit()
+        kib = ps.Kibble(S1, S2, ps.compute_third_mandelstam(S1, S2, M0, R(m1_), R(ma), R(mb)), M0, R(m1_), R(ma), R(mb)).doit()
+        chk.count(("boundary", i, a, b, sa, sb))
+        if kib != 0 or val != 1:
+            bad.append({"what": "collinear event on the Dalitz boundary: exact Kibble != 0 or indicator != 1",
+                        "masses": [str(M0), m1_, ma, mb], "momenta_x": [p1, pa, pb], "sigma1": str(S1), "sigma2": str(S2),
+                        "kibble_exact": str(kib), "indicator": str(val)})
     # Kallen symmetry + factorisation
     for i in range(n_events):
         x_, y_, z_ = rng.uniform(-3, 20), rng.uniform(0, 20), rng.uniform(0, 20)
